@@ -67,6 +67,7 @@ func c09Ops(sizes bool) []c09op {
 		{"Data(typed, MAC of 5 bytes)", "illtyped", 2, 1, 2},
 		{"Data(typed, MAC of 7 bytes)", "illtyped", 2, 1, 3},
 		{"Data(typed, 2nd record IPv6 in ipv4Address)", "illtyped", 2, 2, 4},
+		{"Data(typed, 4-byte IPv4 net.IP in ipv6Address: refused or sent as ::ffff:a.b.c.d)", "v4in6", 2, 2, 0},
 	}
 	if sizes {
 		ops = []c09op{{"Tmpl(b)", "tmpl", 1, 0, 0}, {"Data(a,1) [no template a]", "unknown-a", 0, 1, 0}}
@@ -162,6 +163,48 @@ func (s *c09sys) Apply(opi int) (v *xplore.Violation) {
 			set.AddRecord(els, t.ref.ID)
 		}
 		mustFail = "a value cannot be encoded for its element"
+	case "v4in6":
+		// left open by the statement: an error (nothing written) or the faithful IPv4-mapped form; what
+		// is never acceptable is some other byte pattern under a success return
+		set = entities.NewSet(false)
+		set.PrepareSet(entities.Data, t.ref.ID)
+		for r := 0; r < op.n; r++ {
+			var els []entities.InfoElementWithValue
+			var raws [][]byte
+			for f, ie := range t.ies {
+				e, raw := expValue(ie, r, f, 5)
+				els = append(els, e)
+				raws = append(raws, raw)
+			}
+			if r == op.n-1 {
+				els[1] = entities.NewIPAddressInfoElement(t.ies[1], net.IP([]byte{10, 0, 0, 1}))
+				raws[1] = []byte{0, 0, 0, 0, 0, 0, 0, 0, 0, 0, 0xff, 0xff, 10, 0, 0, 1}
+			}
+			set.AddRecord(els, t.ref.ID)
+			ref = append(ref, raws)
+		}
+		if x.sent[t.ref.ID] {
+			before := len(x.conn.Writes)
+			n, err := x.ep.SendSet(set)
+			ws := x.newWrites()
+			if err != nil {
+				if len(ws) != 0 {
+					return xplore.V("error-but-written", "%s: error %v yet %d message(s) written", op.name, err, len(ws))
+				}
+				x.seq = x.ep.VerifSeq()
+				return nil
+			}
+			_ = before
+			if len(ws) != 1 {
+				return xplore.V("message-count", "%s: success with %d writes", op.name, len(ws))
+			}
+			x.seq += uint32(len(ref))
+			if v := x.checkMessage(ws[0], n, now, t, false, ref); v != nil {
+				v.Detail = op.name + ": " + v.Detail
+				return v
+			}
+			return nil
+		}
 	case "size", "size2":
 		// one variable-length string per record; message = 16 + 4 + sum(prefix + len)
 		set = entities.NewSet(false)
